@@ -219,7 +219,8 @@ let predict (c : string) (obs : string) : string * string * bool =
                  (match parse_phout true (bytes_of_hex obs) with Some s' -> sample_eq s' want | None -> false) in
         (p, verdict ok "columns-not-in-documented-order", true)
       end else (p, "ok", false)
-  | ["aggr"; fmt; q; g; per; mode; delay; _; _] | ["aggr"; fmt; q; g; per; mode; delay; _; _; _] ->
+  | ["aggr"; fmt; q; g; per; mode; delay; _; _] | ["aggr"; fmt; q; g; per; mode; delay; _; _; _]
+  | ["aggr"; fmt; q; g; per; mode; delay; _; _; _; _] ->
       aggr_case fmt (int_of_string q) (int_of_string g) (int_of_string per) mode (int_of_string delay) obs
   | ["engine"; fmt; instances; ammo; _; _] -> engine_case fmt (int_of_string instances) (int_of_string ammo) false obs
   | ["engine"; fmt; instances; ammo; _; _; _; _] -> engine_case fmt (int_of_string instances) (int_of_string ammo) true obs
